@@ -534,6 +534,16 @@ JSON = {
     "js_noclass_lateroot": ('{"late_one_field": "x", "late_one_count": 1}', None, "L1"),
     "js_noclass_latetwo": ('{"late_two_field": "y", "late_two_flag": true}', None, "L2"),
 }
+def _deep_rnode_json(depth):
+    text = '{"value": %d, "child": null}' % depth
+    for i in range(depth - 1, -1, -1):
+        text = '{"value": %d, "child": %s}' % (i, text)
+    return text
+
+
+# deeper than the interpreter's default recursion limit allows the recursive decoder to go
+JSON["js_rnode_500"] = (_deep_rnode_json(500), "m_compound.RNode", None)
+
 BAD_JSON = {
     "bjs_unknown_prop": ('{"id": 5, "name": "j", "bogus": 1}', "m_basic.Item", None),
     "bjs_bad_value": ('{"id": "x", "name": "j", "when": "never"}', "m_basic.Item", None),
